@@ -259,7 +259,7 @@ def make_run(g, settings, menu, classes=(), logger_cls=StreamLogger, on_event=No
     ctx = RunCtx(g, menu)
     ctx.on_event = on_event
     RUN = ctx
-    ctx.logger = logger_cls()
+    ctx.logger = logger_cls() if logger_cls is not None else None      # None: a run without a logger
     ctx.settings_in = settings
     prng = SymRandom(g, "rn")
     prng.on_draw = lambda kind, val: ctx.emit("draw:" + kind, None, val)
